@@ -26,11 +26,50 @@ type c01Config struct {
 	Fields                          bool `json:"level_id_duration_fields"`
 	Batch                           bool `json:"batch_form"`
 	All                             bool `json:"all"`
+	// ResetField: the reset conditions read the field "r" instead of "v".  SplitFields: warn reads "wv" and crit reads "cv",
+	// fields that some points do not carry; a condition over an absent field does not hold.
+	ResetField  bool `json:"resets_on_another_field"`
+	SplitFields bool `json:"levels_on_separate_sparse_fields"`
 }
 
 type c01Point struct {
-	T int `json:"t_s"`
-	V int `json:"v"`
+	T  int `json:"t_s"`
+	V  int `json:"v"`
+	R  int `json:"r,omitempty"`
+	WV int `json:"wv,omitempty"` // 0 = the point does not carry the field
+	CV int `json:"cv,omitempty"`
+}
+
+// of returns the value the condition of level l reads from p, and whether p carries it.
+func (cf *c01Config) of(l alert.Level, p c01Point) (int, bool) {
+	if cf.SplitFields {
+		switch l {
+		case alert.Warning:
+			return p.WV, p.WV != 0
+		case alert.Critical:
+			return p.CV, p.CV != 0
+		}
+	}
+	return p.V, true
+}
+
+func (cf *c01Config) levelField(l alert.Level) string {
+	if cf.SplitFields {
+		switch l {
+		case alert.Warning:
+			return "wv"
+		case alert.Critical:
+			return "cv"
+		}
+	}
+	return "v"
+}
+
+func (cf *c01Config) resetField() string {
+	if cf.ResetField {
+		return "r"
+	}
+	return "v"
 }
 
 type c01Scenario struct {
@@ -86,6 +125,9 @@ func c01Gen(c *Ctx) *c01Scenario {
 		// the batch form is checked for plain thresholds only (the documentation does not say how reset expressions combine inside one batch)
 		cf.InfoReset, cf.WarnReset, cf.CritReset = 0, 0, 0
 		cf.SCOIntervalS = 0
+	} else {
+		cf.ResetField = (cf.InfoReset+cf.WarnReset+cf.CritReset) > 0 && g.Chance(1, 3)
+		cf.SplitFields = g.Chance(1, 5)
 	}
 	nh := g.Range(1, 3)
 	maxPts := 8
@@ -99,7 +141,19 @@ func c01Gen(c *Ctx) *c01Scenario {
 		var pts []c01Point
 		for i := 0; i < n; i++ {
 			t += []int{1, 1, 2, 4}[g.Intn(4)]
-			pts = append(pts, c01Point{T: t, V: vals[g.Intn(len(vals))]})
+			p := c01Point{T: t, V: vals[g.Intn(len(vals))]}
+			if cf.ResetField {
+				p.R = vals[g.Intn(len(vals))]
+			}
+			if cf.SplitFields {
+				if g.Chance(2, 3) {
+					p.WV = vals[g.Intn(len(vals))]
+				}
+				if g.Chance(2, 3) {
+					p.CV = vals[g.Intn(len(vals))]
+				}
+			}
+			pts = append(pts, p)
 		}
 		sc.Hosts = append(sc.Hosts, pts)
 	}
@@ -114,22 +168,22 @@ func c01Gen(c *Ctx) *c01Scenario {
 	}
 	sb.WriteString("    |alert()\n        .id('{{ index .Tags \"host\" }}')\n        .message('{{ .ID }}')\n")
 	if cf.Info > 0 {
-		fmt.Fprintf(&sb, "        .info(lambda: \"v\" > %d)\n", cf.Info)
+		fmt.Fprintf(&sb, "        .info(lambda: \"%s\" > %d)\n", cf.levelField(alert.Info), cf.Info)
 	}
 	if cf.InfoReset > 0 {
-		fmt.Fprintf(&sb, "        .infoReset(lambda: \"v\" < %d)\n", cf.InfoReset)
+		fmt.Fprintf(&sb, "        .infoReset(lambda: \"%s\" < %d)\n", cf.resetField(), cf.InfoReset)
 	}
 	if cf.Warn > 0 {
-		fmt.Fprintf(&sb, "        .warn(lambda: \"v\" > %d)\n", cf.Warn)
+		fmt.Fprintf(&sb, "        .warn(lambda: \"%s\" > %d)\n", cf.levelField(alert.Warning), cf.Warn)
 	}
 	if cf.WarnReset > 0 {
-		fmt.Fprintf(&sb, "        .warnReset(lambda: \"v\" < %d)\n", cf.WarnReset)
+		fmt.Fprintf(&sb, "        .warnReset(lambda: \"%s\" < %d)\n", cf.resetField(), cf.WarnReset)
 	}
 	if cf.Crit > 0 {
-		fmt.Fprintf(&sb, "        .crit(lambda: \"v\" > %d)\n", cf.Crit)
+		fmt.Fprintf(&sb, "        .crit(lambda: \"%s\" > %d)\n", cf.levelField(alert.Critical), cf.Crit)
 	}
 	if cf.CritReset > 0 {
-		fmt.Fprintf(&sb, "        .critReset(lambda: \"v\" < %d)\n", cf.CritReset)
+		fmt.Fprintf(&sb, "        .critReset(lambda: \"%s\" < %d)\n", cf.resetField(), cf.CritReset)
 	}
 	if cf.SCO {
 		if cf.SCOIntervalS > 0 {
@@ -160,7 +214,11 @@ func c01Gen(c *Ctx) *c01Scenario {
 
 // ---- reference model, written from the documentation in pipeline/alert.go ----
 
-func (cf *c01Config) matches(l alert.Level, v int) bool {
+func (cf *c01Config) matches(l alert.Level, p c01Point) bool {
+	v, ok := cf.of(l, p)
+	if !ok {
+		return false
+	}
 	switch l {
 	case alert.Info:
 		return cf.Info > 0 && v > cf.Info
@@ -172,7 +230,11 @@ func (cf *c01Config) matches(l alert.Level, v int) bool {
 	return false
 }
 
-func (cf *c01Config) resetPasses(l alert.Level, v int) (configured, pass bool) {
+func (cf *c01Config) resetPasses(l alert.Level, p c01Point) (configured, pass bool) {
+	v := p.V
+	if cf.ResetField {
+		v = p.R
+	}
 	switch l {
 	case alert.Info:
 		return cf.InfoReset > 0, v < cf.InfoReset
@@ -185,7 +247,7 @@ func (cf *c01Config) resetPasses(l alert.Level, v int) (configured, pass bool) {
 }
 
 // level: the highest severity whose condition holds; once in a state, it can only be lowered if that state's reset holds.
-func (cf *c01Config) level(cur alert.Level, v int) alert.Level {
+func (cf *c01Config) level(cur alert.Level, v c01Point) alert.Level {
 	highest := alert.OK
 	for l := alert.Critical; l > alert.OK; l-- {
 		if cf.matches(l, v) {
@@ -217,7 +279,7 @@ func (cf *c01Config) model(pts []c01Point) []c01Event {
 	leftOK := 0
 	lastTriggered := -1 << 40
 	for _, p := range pts {
-		nl := cf.level(cur, p.V)
+		nl := cf.level(cur, p)
 		changed := nl != cur
 		prev := cur
 		cur = nl
@@ -254,7 +316,7 @@ func (cf *c01Config) batchModel(pts []c01Point) []c01Event {
 		hi, lo := alert.OK, alert.Critical
 		hiT := -1
 		for i < len(pts) && pts[i].T/2 == w {
-			l := cf.level(cur, pts[i].V)
+			l := cf.level(cur, pts[i])
 			if l > hi || hiT < 0 {
 				hi, hiT = l, pts[i].T
 			}
@@ -482,7 +544,17 @@ func runC01(c *Ctx) Verdict {
 			go func(h int, pts []c01Point) {
 				defer wg.Done()
 				for _, p := range pts {
-					line := fmt.Sprintf("m,host=h%d v=%di %d\n", h, p.V, int64(p.T)*int64(time.Second))
+					extra := ""
+					if sc.Cfg.ResetField {
+						extra += fmt.Sprintf(",r=%di", p.R)
+					}
+					if p.WV != 0 {
+						extra += fmt.Sprintf(",wv=%di", p.WV)
+					}
+					if p.CV != 0 {
+						extra += fmt.Sprintf(",cv=%di", p.CV)
+					}
+					line := fmt.Sprintf("m,host=h%d v=%di%s %d\n", h, p.V, extra, int64(p.T)*int64(time.Second))
 					if code := d.WriteLine("db", "rp", line); code != 204 {
 						verdict = Fail("harness/setup", "write rejected %d", code)
 					}
@@ -538,6 +610,9 @@ func runC01(c *Ctx) Verdict {
 		}
 	}
 	for _, e := range d.Sinks.Errs {
+		if sc.Cfg.SplitFields && strings.Contains(e, "is missing value") {
+			continue // a point without the field of a level's condition: reported, and the condition does not hold
+		}
 		return Fail("node-error", "the alert task reported an error on well-typed input: %s", e)
 	}
 	shape := map[string]interface{}{"batch": sc.Cfg.Batch, "resets": sc.Cfg.InfoReset+sc.Cfg.WarnReset+sc.Cfg.CritReset > 0, "sco": sc.Cfg.SCO, "sco_interval": sc.Cfg.SCOIntervalS > 0, "no_recoveries": sc.Cfg.NoRecoveries}
